@@ -31,10 +31,17 @@ package dag
 //@ ghost obs.meta_err error
 //@ ghost obs.meta_dag *DAG
 
+// The address of a run's control socket is a function of the DAG file's location and of nothing else — that is what
+// makes "is a run of this file active?" answerable by whoever asks (C16): the location with blanks replaced, its
+// base name without extension (cut to 49 characters when longer than 50) and the md5 of the whole location.
+//@ sfunc sock_loc(loc string) string = replaceAll(loc, " ", "_")
+//@ sfunc sock_name(loc string) string = str_replace(path_base(sock_loc(loc)), path_ext(path_base(sock_loc(loc))), "", 1)
+//@ sfunc sock_addr(loc string) string = path_join("/tmp", "@blackdagger-" +
+//@        ite(len(sock_name(loc)) > 50, substr(sock_name(loc), 0, 49), sock_name(loc)) + "-" + hex_of(md5_sum(sock_loc(loc))) + ".sock")
 //@ fn (*DAG).SockAddr(d) (r)
 //@   props C16
-//@   trusted
-//@   pure
+//@   modifies heap(alloc)
+//@   ensures [C16 socket_address_is_a_function_of_the_file_location] r == sock_addr(d.Location)
 
 // =============================================================================================
 // The loader (C13, C19).  Every function between the entry points and the built DAG is verified for memory
